@@ -15,8 +15,9 @@
           under the positional symbol correspondence.
       roundtrip_full : roundtrip_sem plus: explicit, distinct names of inputs, states and outputs of
         a parsed system survive a further write/read cycle.   (names are string heuristics of
-        serialize.rs: is_autogen_name, decl_name, label names, alias lines; FALSE today in two
-        classes, see known_findings.txt, keys starting with names: )
+        serialize.rs: is_autogen_name, decl_name, label names, alias lines; FALSE today, see
+        known_findings.txt, keys starting with names: ; Model/Btor2SerNames.v models the heuristics
+        exactly, with one flag per repair prepared under patches/0008, 0010, 0011)
 
     Proved: the reader inverts the writer's SPELLING node by node - every operator node
     ([C09_node_roundtrip]: the operator name the writer prints selects, in the reader's tables,
